@@ -65,6 +65,35 @@ def tpl_doc(rnd):
     return '<root>%s</root>' % ''.join(secs), nsec
 
 
+SHADOW_XSD = ('<xs:schema xmlns:xs="%s" xmlns:t="urn:t" targetNamespace="urn:t" elementFormDefault="qualified">'
+              '<xs:element name="item" type="xs:int"/><xs:element name="name" type="xs:date"/>'
+              '<xs:element name="note"><xs:complexType><xs:attribute name="k" type="xs:int" use="required"/></xs:complexType>'
+              '</xs:element>'
+              '<xs:element name="root"><xs:complexType><xs:sequence>'
+              '<xs:element name="name" type="xs:string" minOccurs="0"/>'
+              '<xs:element name="item" maxOccurs="unbounded"><xs:complexType><xs:simpleContent><xs:extension '
+              'base="xs:string"><xs:attribute name="id" type="xs:int"/></xs:extension></xs:simpleContent></xs:complexType>'
+              '</xs:element>'
+              '<xs:element name="note" type="xs:boolean" minOccurs="0" maxOccurs="unbounded"/>'
+              '</xs:sequence></xs:complexType><xs:unique name="u"><xs:selector xpath="t:item"/><xs:field xpath="@id"/>'
+              '</xs:unique></xs:element></xs:schema>' % XS)
+
+
+def shadow_doc(rnd):
+    """Children of the root are LOCAL declarations that share their names with differently typed GLOBAL elements:
+    values are valid for one and invalid for the other."""
+    parts = []
+    if rnd.random() < .7:
+        parts.append('<p:name>%s</p:name>' % rnd.choice(['Bob', '2000-01-01', 'x y']))
+    n = rnd.randint(1, 5)
+    for i in range(n):
+        a = ' id="%s"' % rnd.choice([str(i), str(i), '0', 'x']) if rnd.random() < .7 else ''
+        parts.append('<p:item%s>%s</p:item>' % (a, rnd.choice(['abc', '12', 'hello world', ''])))
+    for _ in range(rnd.choice([0, 1, 2])):
+        parts.append('<p:note%s>%s</p:note>' % (rnd.choice(['', '', ' k="1"']), rnd.choice(['true', '0', 'maybe'])))
+    return '<p:root xmlns:p="urn:t">%s</p:root>' % ''.join(parts), len(parts)
+
+
 def big_doc(rnd):
     """A document of the template family larger than the parser's read buffer (> 64 KiB): keys, key references
     and IDREFs reach across many streamed chunks and across several reads of the underlying file."""
@@ -235,7 +264,7 @@ def compare_doc(s, xsd, doc, nchunks, st, label, replaying=False):
 
 def shards(tier, seed):
     return [('dg', k, tier, seed) for k in range(10)] + [('tpl', k, tier, seed) for k in range(6)] + \
-           [('big', k, tier, seed) for k in range(4)]
+           [('big', k, tier, seed) for k in range(4)] + [('shadow', k, tier, seed) for k in range(2)]
 
 
 def run_shard(desc):
@@ -251,6 +280,15 @@ def run_shard(desc):
             s = schemas['11' if rnd.random() < .3 else '10']
             st_.sample({'generator': 'sections/items', 'doc': doc[:300]}, cap=2)
             return compare_doc(s, TPL_XSD, doc, nsec, st_, 'template')
+    elif kind == 'shadow':
+        n = 400 if tier == 'thorough' else 60
+        schemas = {v: c(SHADOW_XSD) for v, c in (('10', xmlschema.XMLSchema10), ('11', xmlschema.XMLSchema11))}
+
+        def body(rnd, st_):
+            doc, nch = shadow_doc(rnd)
+            s = schemas['11' if rnd.random() < .3 else '10']
+            st_.sample({'generator': 'local declarations shadowing global names', 'doc': doc[:300]}, cap=2)
+            return compare_doc(s, SHADOW_XSD, doc, nch, st_, 'shadow')
     elif kind == 'big':
         n = 12 if tier == 'thorough' else 2
         schemas = {v: c(TPL_XSD) for v, c in (('10', xmlschema.XMLSchema10), ('11', xmlschema.XMLSchema11))}
